@@ -8,6 +8,7 @@ import (
 	"os"
 	"os/exec"
 	"regexp"
+	"strings"
 	"sync"
 	"syscall"
 	"time"
@@ -78,8 +79,9 @@ func (p *PTY) Close() { p.Master.Close(); p.Slave.Close() }
 
 // Chunk is a piece of terminal output with its receive time.
 type Chunk struct {
-	When time.Time
-	Data []byte
+	When     time.Time
+	Data     []byte
+	CleanEnd int // length of the cleaned transcript once this chunk was taken in
 }
 
 // Proc is a running program.
@@ -159,7 +161,6 @@ func Start(bin string, args, env []string, tty bool, init *syscall.Termios) (*Pr
 			n, err := rd.Read(buf)
 			if n > 0 {
 				p.mu.Lock()
-				p.chunks = append(p.chunks, Chunk{time.Now(), append([]byte(nil), buf[:n]...)})
 				p.raw = append(p.raw, buf[:n]...)
 				piece := append(p.carry, buf[:n]...)
 				p.carry = nil
@@ -168,6 +169,7 @@ func Start(bin string, args, env []string, tty bool, init *syscall.Termios) (*Pr
 					piece = piece[:m[0]]
 				}
 				p.clean = append(p.clean, ansi.ReplaceAll(piece, nil)...)
+				p.chunks = append(p.chunks, Chunk{time.Now(), append([]byte(nil), buf[:n]...), len(p.clean)})
 				p.cond.Broadcast()
 				p.mu.Unlock()
 			}
@@ -245,6 +247,76 @@ func (p *Proc) WaitOutput(d time.Duration, sub string) bool {
 		select {
 		case <-p.done:
 			return bytes.Contains(p.clean[from:], []byte(sub))
+		default:
+		}
+		p.cond.Wait()
+	}
+}
+
+// Snapshot returns the cleaned transcript and the chunks, consistent with
+// each other.
+func (p *Proc) Snapshot() (string, []Chunk) {
+	p.mu.Lock()
+	defer p.mu.Unlock()
+	return string(p.clean), append([]Chunk(nil), p.chunks...)
+}
+
+// Seen returns when each occurrence of tok was completed on the terminal (the
+// arrival time of the chunk that carried its last byte); linear in the size
+// of the transcript.
+func Seen(clean string, chunks []Chunk, tok string) []time.Time {
+	var out []time.Time
+	ci := 0
+	for from := 0; ; {
+		i := strings.Index(clean[from:], tok)
+		if i < 0 {
+			return out
+		}
+		end := from + i + len(tok)
+		for ci < len(chunks) && chunks[ci].CleanEnd < end {
+			ci++
+		}
+		if ci < len(chunks) {
+			out = append(out, chunks[ci].When)
+		} else {
+			out = append(out, time.Now())
+		}
+		from = end
+	}
+}
+
+// WaitCount waits until the cleaned output holds at least n occurrences of
+// sub; it only looks at what is new, so megabytes of output stay cheap.
+func (p *Proc) WaitCount(d time.Duration, sub string, n int) bool {
+	deadline := time.Now().Add(d)
+	t := time.AfterFunc(d, func() { p.mu.Lock(); p.cond.Broadcast(); p.mu.Unlock() })
+	defer t.Stop()
+	p.mu.Lock()
+	defer p.mu.Unlock()
+	from, cnt := 0, 0
+	scan := func() {
+		for {
+			i := bytes.Index(p.clean[from:], []byte(sub))
+			if i < 0 {
+				from = max(from, len(p.clean)-len(sub)+1)
+				return
+			}
+			cnt++
+			from += i + len(sub)
+		}
+	}
+	for {
+		scan()
+		if cnt >= n {
+			return true
+		}
+		if !time.Now().Before(deadline) {
+			return false
+		}
+		select {
+		case <-p.done:
+			scan()
+			return cnt >= n
 		default:
 		}
 		p.cond.Wait()
